@@ -88,6 +88,18 @@ class Waveform(metaclass=ABCMeta):
             elements as sample_times.
         """
 
+    def _unsafe_sample_shifted(self,
+                               channel: ChannelID,
+                               sample_times: np.ndarray,
+                               offset: Union[TimeType, int],
+                               output_array: Union[np.ndarray, None] = None) -> np.ndarray:
+        """Sample this waveform when it starts at the exact time `offset` on the time axis of `sample_times`. Composite
+        waveforms override this to locate their parts with the exactly accumulated boundaries on the unshifted axis:
+        a local time `t - float(offset)` can fall an ulp short of an inner boundary `t` lies exactly on."""
+        return self.unsafe_sample(channel=channel,
+                                  sample_times=sample_times - np.float64(offset),
+                                  output_array=output_array)
+
     def get_sampled(self,
                     channel: ChannelID,
                     sample_times: np.ndarray,
@@ -640,18 +652,23 @@ class SequenceWaveform(Waveform):
                       channel: ChannelID,
                       sample_times: np.ndarray,
                       output_array: Union[np.ndarray, None] = None) -> np.ndarray:
+        return self._unsafe_sample_shifted(channel, sample_times, 0, output_array)
+
+    def _unsafe_sample_shifted(self,
+                               channel: ChannelID,
+                               sample_times: np.ndarray,
+                               offset: Union[TimeType, int],
+                               output_array: Union[np.ndarray, None] = None) -> np.ndarray:
         if output_array is None:
             output_array = _ALLOCATION_FUNCTION(sample_times, **_ALLOCATION_FUNCTION_KWARGS)
-        time = 0
+        time = offset
         for subwaveform in self._sequenced_waveforms:
             # before you change anything here, make sure to understand the difference between basic and advanced
             # indexing in numpy and their copy/reference behaviour
             end = time + subwaveform.duration
 
             indices = slice(*sample_times.searchsorted((float(time), float(end)), 'left'))
-            subwaveform.unsafe_sample(channel=channel,
-                                      sample_times=sample_times[indices]-np.float64(time),
-                                      output_array=output_array[indices])
+            subwaveform._unsafe_sample_shifted(channel, sample_times[indices], time, output_array[indices])
             time = end
         return output_array
 
@@ -862,16 +879,21 @@ class RepetitionWaveform(Waveform):
                       channel: ChannelID,
                       sample_times: np.ndarray,
                       output_array: Union[np.ndarray, None] = None) -> np.ndarray:
+        return self._unsafe_sample_shifted(channel, sample_times, 0, output_array)
+
+    def _unsafe_sample_shifted(self,
+                               channel: ChannelID,
+                               sample_times: np.ndarray,
+                               offset: Union[TimeType, int],
+                               output_array: Union[np.ndarray, None] = None) -> np.ndarray:
         if output_array is None:
             output_array = _ALLOCATION_FUNCTION(sample_times, **_ALLOCATION_FUNCTION_KWARGS)
         body_duration = self._body.duration
-        time = 0
+        time = offset
         for _ in range(self._repetition_count):
             end = time + body_duration
             indices = slice(*sample_times.searchsorted((float(time), float(end)), 'left'))
-            self._body.unsafe_sample(channel=channel,
-                                     sample_times=sample_times[indices] - float(time),
-                                     output_array=output_array[indices])
+            self._body._unsafe_sample_shifted(channel, sample_times[indices], time, output_array[indices])
             time = end
         return output_array
 
